@@ -282,6 +282,7 @@ def check_property(pid, tier, module=None, level="other", assumptions=(), explan
         if seed:
             import random
             random.Random(seed).shuffle(tasks)
+            tasks.sort(key=lambda t: not t.get("twin"))       # (stable) vacuity twins still run first
         else:
             # vacuity twins first, then round-robin over the conditions (shard k of every condition before shard
             # k+1 of any), so that a wall-clock limit cuts every condition evenly
